@@ -31,7 +31,10 @@ def main():
             fv = re.sub(r"^VIOLATION property=C\d\d\s*", "", fv)[:100]
             demo = det.get("demo_on_changed_tree", "")
             cell = st.replace("DETECTED by ./check ", "**caught** by `").replace(" --tier quick", " quick`") if st.startswith("DETECTED") else "**" + st + "**"
-            if "no longer manifests" in demo:
+            np2 = os.path.join(d, "NEUTRALISED.md")
+            if os.path.exists(np2):
+                cell = "no longer applicable: " + open(np2).read().strip().replace("|", "/")
+            elif "no longer manifests" in demo:
                 cell += " (demo passes: neutralised by a later fix)"
             rows.append("| %s | %s | %s | %s |" % (n, notes.replace("|", "/"), cell, fv.replace("|", "/")))
         else:
